@@ -15,7 +15,7 @@ fn view_of(m: &Model, p: &str) -> Option<EntryView> {
         return None;
     }
     match m.eval(&Op::Entry { p: p.to_string() }).first().map(|a| a.expect.clone()) {
-        Some(crate::model::Expect::Exact(Outcome::Ok(Val::EntryF(v0, _, _)))) => Some(v0),
+        Some(crate::model::Expect::Exact(Outcome::Ok(Val::EntryF(v0, _, _, _)))) => Some(v0),
         _ => None,
     }
 }
